@@ -2,6 +2,7 @@ import Iavl.Lemmas.AvlRemove
 import Iavl.Lemmas.GetRank
 import Iavl.Lemmas.SortedMap
 import Iavl.Model.ReadCost
+import Iavl.Lemmas.VersionSharing
 /-
   C11 — every version is a balanced ordered tree; lookup by key and by rank agree with sorted order.
   The real-valued bound h ≤ 1.4405·log2(n+2) follows from `fib (h+2) ≤ n` by the classical estimate
@@ -73,6 +74,18 @@ theorem rank_lookup_reads_le (t : Node K V) (i : Nat) (h : AVL t) : t.getByIndex
 /-- a proof query (membership or non-membership, neighbours included) fetches at most ten nodes per level -/
 theorem proof_reads_le (t : Node K V) (key : K) (h : AVL t) : t.proofReads key ≤ 10 * t.height :=
   proofReads_le t key (AVL.heightOK t h)
+
+/-- **every retained version of every history is a balanced ordered tree**: in every state the version
+    machine reaches from an empty store, each retained version (and the working tree) is ordered, has the
+    routing keys in place and satisfies the AVL invariant with exact heights and sizes - hence the bound
+    `fib (h+2) ≤ n` and the read bounds above hold for all of them -/
+theorem every_version_balanced_in_every_history (iv : Option Nat) (ops : List (Op K V)) (u : Nat) (T : Node K V)
+    (h : (u, some T) ∈ (stateAfter (initT iv) ops).versions) :
+    Ordered T ∧ RoutingMin T ∧ AVL T ∧ fib (T.height + 2) ≤ T.size := by
+  have hi := stateAfter_inv (initT iv : VState (OTree K V))
+    ⟨trivial, trivial, by intro q hq; simp [initT] at hq⟩ ops
+  have g : Good T := hi.gv _ h
+  exact ⟨g.1, g.2.1, g.2.2, fib_le_size T g.2.2⟩
 
 theorem size_is_count (t : Node K V) (h : SizeOK t) : t.size = t.toList.length := size_eq_length t h
 
